@@ -249,7 +249,16 @@ def limits_and_unsupported(chk: Check, tier: str):
     body = arg(0) + [("PUSH", 3), "AND", "DUP1", ("PUSH", 0), "EQ", ("PUSHL", "a"), "JUMPI", "DUP1", ("PUSH", 1), "EQ", ("PUSHL", "b"), "JUMPI",
                      "DUP1", ("PUSH", 2), "EQ", ("PUSHL", "c"), "JUMPI", "STOP", ("LABEL", "a"), "STOP", ("LABEL", "b"), "STOP", ("LABEL", "c"), "STOP"]
     unsup = arg(0) + [("PUSH", 7), "EQ", ("PUSHL", "u"), "JUMPI", "STOP", ("LABEL", "u"), ("RAW", bytes([0x49])), "STOP"]  # BLOBHASH
-    c = Contract("LimitT", [Fn("setUp()", ["STOP"]), Fn("check_wide(uint256)", uniq(body, "w")), Fn("check_unsupported(uint256)", uniq(unsup, "u"))])
+    # ... also when the unsupported instruction sits one or two frames below the test (the test calls itself)
+    def call_self(sig):
+        return [("PUSHN", 32, int(selector(sig), 16) << 224), ("PUSH", 0), "MSTORE", ("PUSH", 0), ("PUSH", 0), ("PUSH", 4), ("PUSH", 0), ("PUSH", 0), "ADDRESS", ("PUSH", 0xFFFFFF), "CALL", "POP", "STOP"]
+
+    c = Contract("LimitT", [Fn("setUp()", ["STOP"]), Fn("check_wide(uint256)", uniq(body, "w")), Fn("check_unsupported(uint256)", uniq(unsup, "u")),
+                            Fn("boom()", [("RAW", bytes([0x49])), "STOP"]), Fn("relay()", call_self("boom()")),
+                            Fn("peek(uint256)", arg(0) + ["MLOAD", "POP", "STOP"]),
+                            Fn("check_nested_unsupported()", call_self("boom()")), Fn("check_nested2_unsupported()", call_self("relay()")),
+                            Fn("check_nested_symbolic(uint256)", [("PUSHN", 32, int(selector("peek(uint256)"), 16) << 224), ("PUSH", 0), "MSTORE"] + arg(0) + [("PUSH", 4), "MSTORE",
+                                ("PUSH", 0), ("PUSH", 0), ("PUSH", 36), ("PUSH", 0), ("PUSH", 0), "ADDRESS", ("PUSH", 0xFFFFFF), "CALL", "POP", "STOP"])])
     for cli, what, sig in [(("--width", "2"), "--width", "check_wide(uint256)"), (("--depth", "12"), "--depth", "check_wide(uint256)")]:
         with capture_paths() as rec:
             out = run_contract(c, cli=cli, funsigs=[sig])
@@ -268,6 +277,14 @@ def limits_and_unsupported(chk: Check, tier: str):
     chk.nontrivial(("unsupported-opcode",))
     if r is None or r.exitcode == 0:
         chk.violation("unsupported-opcode:pass", "check_unsupported(uint256): a path stopped by an unsupported opcode yet the test is PASS", {"halmos_output": (out.stdout + out.logs)[-1500:]})
+    for sig in ("check_nested_unsupported()", "check_nested2_unsupported()", "check_nested_symbolic(uint256)"):
+        out = run_contract(c, funsigs=[sig])
+        r = out.by_sig().get(sig)
+        chk.count("traces_validated_against_impl")
+        chk.nontrivial(("unsupported-nested", sig))
+        if r is None or r.exitcode == 0:
+            chk.violation(f"unsupported-nested:{sig}:pass", f"{sig}: the only path is stopped by an unsupported feature inside a nested call, yet the test is a clean PASS",
+                          {"halmos_output": (out.stdout + out.logs)[-1500:]})
 
 
 def setup_loop(chk: Check, tier: str):
